@@ -496,6 +496,10 @@ PROPS["C12"]["extra_tools"] = [{"tool": "tlapm", "file": "CollectProof.tla",
     "theorem": "Ordered: for ANY number of inputs and every order in which the 64-input chunks are evaluated, the collected results are the "
                "inputs in input order, each exactly once (abstraction of ValidateSM.tla: Eval / Collect; TLAPS)"}]
 PROPS["C12"]["technique"] += " + TLAPS proof of ordered collection for an unbounded number of inputs (CollectProof.tla)"
+# the optimizer step itself (Optimizer.tla case table, small bounds): what "one optimizer step" means in C04
+PROPS["C04"]["mc"].append({"module": "MC_C03", "consts": {"quick": {"MaxSteps": 2, "MaxRounds": 2, "Slots": "{1, 2, 3}", "LongRuns": "{}"},
+                                                           "thorough": {"MaxSteps": 3, "MaxRounds": 3, "Slots": "{1, 2, 3}", "LongRuns": "{120}"}},
+                           "workers": 8, "timeout": {"quick": 900, "thorough": 3600}})
 PROPS["C04"]["extra_tools"] = [_ORDER]
 PROPS["C05"]["extra_tools"] = [_ORDER]
 PROPS["C04"]["technique"] += " + TLAPS proof that the reduction of a group is the ordered sum for unbounded group length and workers (OrderProof.tla)"
